@@ -3,7 +3,7 @@ CONSTANTS
   Params <- MCParams
   Ds = {0, 4, 8}
   Scores = {0, 1}
-  MaxGen = 3
+  MaxGen = 2
 INVARIANT StepsAreEnvSteps
 INVARIANT OneFitnessPerGeneration
 INVARIANT PopShape
